@@ -56,8 +56,13 @@ def _lowrank_model(draw):
 
 @st.composite
 def _case(draw):
-    if draw(st.integers(0, 3)) == 0:
+    pick = draw(st.integers(0, 7))
+    if pick in (0, 1):
         m = draw(_lowrank_model())
+    elif pick == 2:
+        # leaves (stationary point, its function value) created by the class while its constraints are generated, i.e. after
+        # the objective leaf: the objective is then not the last function value
+        m = draw(gen.model_autostat())
     else:
         m = draw(gen.model(max_steps=3, allow_nonsym_lmi=False))
     o = {"wrapper": draw(st.sampled_from(["cvxpy", "cvxpy", "mosek"])), "solver": "CLARABEL", "verbose": draw(st.sampled_from([0, 0, 1])),
